@@ -177,7 +177,6 @@ fn main_anchors(m: &MainIds) -> Vec<String> {
     v.push(format!("v1-1-g{}", &m.c2[..4])); // describe form with an ambiguous prefix: commits are preferred
     v.push(format!("v1-1-g{}", &m.c3[..4]));
     v.push(format!("x-g{}", &m.blob[..7])); // describe form naming a blob
-    v.push(format!("{}-dirty", &m.c1[..7]));
     v.push("0000".into());
     v
 }
@@ -319,13 +318,60 @@ fn gix_outcome(fx: &Fixture, spec: &str) -> (Outcome, &'static str) {
 }
 
 fn evaluate(fixtures: &[Fixture], c: &Case) -> Verdict {
+    let v = vkit::catch(|| evaluate_inner(fixtures, c)).unwrap_or_else(|p| {
+        // `Error::from_errors()` asserts that the delegate recorded an error; navigation without an anchor records none
+        let class = if p.contains("!errors.is_empty()") { "panic-no-error-recorded" } else { "panic" };
+        bad(class, format!("repo {} spec {:?}: {p}", c.repo, c.spec))
+    });
+    if let (Err(m), Ok(path)) = (&v, std::env::var("VERIF_C48_DUMP")) {
+        use std::io::Write;
+        if let Ok(mut f) = std::fs::OpenOptions::new().create(true).append(true).open(path) {
+            let _ = writeln!(f, "{}", m.replace('\n', " "));
+        }
+    }
+    v
+}
+
+/// Name the construct a disagreement is about, so that known findings can be matched narrowly.
+fn feature(spec: &str) -> &'static str {
+    let describe_like = spec.find("-g").map_or(false, |p| spec[p + 2..].bytes().take_while(u8::is_ascii_hexdigit).count() >= 4);
+    if spec.starts_with("@@") {
+        "at-at"
+    } else if spec.contains("@{u") || spec.contains("@{push") {
+        "sibling-branch"
+    } else if spec.contains("~0") {
+        "tilde-zero"
+    } else if spec.contains("^{/}") {
+        "empty-regex"
+    } else if spec.contains("@{-") {
+        "nth-prior-checkout"
+    } else if spec.contains("@{") {
+        "reflog"
+    } else if describe_like {
+        "describe"
+    } else if spec.contains("^{/") || spec.starts_with(":/") {
+        "regex"
+    } else if spec.contains("..") {
+        "range"
+    } else if spec.contains("^-") || spec.contains("^!") || spec.contains("^@") {
+        "parent-shorthand"
+    } else if spec.contains(':') {
+        "path"
+    } else if spec.contains("^{") {
+        "peel"
+    } else {
+        "other"
+    }
+}
+
+fn evaluate_inner(fixtures: &[Fixture], c: &Case) -> Verdict {
     let Some(fx) = fixtures.get(c.repo as usize) else { vkit::machinery!("no fixture {}", c.repo) };
     let want = git_outcome(&fx.dir, &c.spec);
     let (got, shape) = gix_outcome(fx, &c.spec);
     match (&want, &got) {
         (Outcome::Error(_), Outcome::Error(_)) => ok_trivial("both-reject"),
-        (Outcome::Error(g), Outcome::Revs(r)) => bad("gix-resolves-what-git-rejects", format!("repo {} spec {:?}: git: {g}; gix: {r:?}", fx.name, c.spec)),
-        (Outcome::Revs(r), Outcome::Error(e)) => bad("gix-rejects-what-git-resolves", format!("repo {} spec {:?}: git: {r:?}; gix: {e}", fx.name, c.spec)),
+        (Outcome::Error(g), Outcome::Revs(r)) => bad(&format!("gix-resolves-what-git-rejects/{}", feature(&c.spec)), format!("repo {} spec {:?}: git: {g}; gix: {r:?}", fx.name, c.spec)),
+        (Outcome::Revs(r), Outcome::Error(e)) => bad(&format!("gix-rejects-what-git-resolves/{}", feature(&c.spec)), format!("repo {} spec {:?}: git: {r:?}; gix: {e}", fx.name, c.spec)),
         (Outcome::Revs(w), Outcome::Revs(g)) => {
             let same = if shape == "merge" {
                 // git additionally prints the merge bases as exclusions; only the two tips come from the spec itself
@@ -336,7 +382,7 @@ fn evaluate(fixtures: &[Fixture], c: &Case) -> Verdict {
             if same {
                 ok(format!("same/{shape}"))
             } else {
-                bad("differs", format!("repo {} spec {:?}: git: {w:?}; gix ({shape}): {g:?}", fx.name, c.spec))
+                bad(&format!("differs/{}", feature(&c.spec)), format!("repo {} spec {:?}: git: {w:?}; gix ({shape}): {g:?}", fx.name, c.spec))
             }
         }
     }
@@ -381,6 +427,7 @@ pub fn run(run: &'static Run) {
     ));
     run.assume("oracle: git 2.39.5 `rev-parse --end-of-options <spec> --` in the fixture's worktree; outcome = printed revisions (with ^ markers) or failure; error texts are not compared");
     run.assume("excluded because gitoxide documents it as not implemented (Error::Planned): reflog lookup by date `@{<date>}`");
+    run.assume("excluded: describe output with a '-dirty' suffix ('<hex>-dirty'), which gitoxide accepts on purpose (gix-revision tests partial_format_with_dirty_suffix_is_recognized) and git rejects");
     run.assume("regular expressions are restricted to constructs that mean the same in POSIX basic (git) and Rust regex syntax: literals, '.', '^', ' '");
     run.assume("`A...B`: only the two tips are compared (git additionally prints the merge bases, which the spec itself does not name)");
     run.assume("fixtures: main = 6 commits incl. a merge, lightweight/annotated/nested/tree/blob tags, branch+tag of the same name, hex-looking branch names, remote tracking + upstream config, reflogs with checkouts, a blob and a commit crafted to share 4-hex prefixes with commits; packed = same with pack + packed-refs; detached = detached HEAD without reflogs; empty = unborn HEAD");
@@ -401,6 +448,9 @@ pub fn run(run: &'static Run) {
             // simplest first: depth 0/1 everywhere, then the deep compositions
             for (i, fx) in fixtures.iter().enumerate() {
                 compose(&fx.anchors, all, 1, SUFFIX_FINAL, &mut |s| out(i as u8, s));
+            }
+            if std::env::var("VERIF_C48_SHALLOW").is_ok() {
+                return;
             }
             compose(&fixtures[0].anchors, SUFFIX_DEEP, run.pick(2, 3), SUFFIX_FINAL, &mut |s| out(0, s));
             if thorough {
@@ -441,6 +491,13 @@ pub fn run(run: &'static Run) {
 
     run.cov("oracle_calls_git", run.sub_evaluations("single") + run.sub_evaluations("range"));
     for class in ["same/single", "same/range", "same/merge", "same/exclude", "same/parents-only", "same/exclude-parents", "both-reject"] {
-        run.require(&format!("outcome {class} was observed"), run.outcome_count(class) > 0);
+        require_unless_capped(run, &format!("outcome {class} was observed"), run.outcome_count(class) > 0);
+    }
+}
+
+/// Vacuity guards only make sense for runs that were not cut short by the time budget (then evidence says exhaustive=false).
+fn require_unless_capped(run: &Run, what: &str, cond: bool) {
+    if !run.over_budget() {
+        run.require(what, cond);
     }
 }
